@@ -12,16 +12,21 @@ import re
 
 import common as C
 
-SRC_FILES = ['src/order.rs', 'src/shape.rs', 'src/index.rs', 'src/lib.rs', 'src/arithmetic.rs']
+SRC_FILES = ['src/order.rs', 'src/shape.rs', 'src/index.rs', 'src/lib.rs', 'src/arithmetic.rs', 'src/iter/iter_mut.rs']
 GEN_DIR = os.path.join(C.BUILD, 'gen')
 
 # which kernel functions each property's theorems rest on
+ITER_MACHINES = ['IterNthVectorMut_assemble', 'IterNthVectorMut_next', 'IterNthVectorMut_next_back', 'IterNthVectorMut_size_hint',
+                 'IterVectorsMut_assemble', 'IterVectorsMut_next', 'IterVectorsMut_next_back', 'IterVectorsMut_size_hint']
+
 OBLIGATIONS = {
+    'C03': ITER_MACHINES,
+    'C17': ITER_MACHINES,
     'C01': ['AxisShape_size', 'AxisShape_nrows', 'AxisShape_ncols', 'AxisShape_to_shape', 'Matrix_size', 'Matrix_is_empty', 'Matrix_nrows', 'Matrix_ncols'],
     'C04': ['AxisIndex_from_index', 'AxisIndex_is_out_of_bounds', 'AxisIndex_to_flattened', 'Matrix_major', 'Matrix_minor',
             'AxisShape_major', 'AxisShape_minor', 'AxisShape_major_stride', 'AxisShape_minor_stride'],
     'C05': ['Order_switch', 'Shape_transpose', 'AxisShape_transpose', 'AxisIndex_swap', 'AxisIndex_from_flattened', 'AxisIndex_to_flattened'],
-    'C06': ['AxisShape_major_stride', 'AxisShape_minor_stride', 'Matrix_major_stride', 'Matrix_minor_stride', 'Matrix_major', 'Matrix_minor'],
+    'C06': ['AxisShape_major_stride', 'AxisShape_minor_stride', 'Matrix_major_stride', 'Matrix_minor_stride', 'Matrix_major', 'Matrix_minor'] + ITER_MACHINES,
     'C07': ['AxisIndex_swap', 'AxisIndex_from_flattened', 'AxisIndex_to_flattened'],
     'C08': ['Shape_size', 'Shape_try_to_axis_shape', 'Shape_to_axis_shape_unchecked', 'Matrix_check_size', 'AxisShape_size'],
     'C09': ['Shape_size', 'Shape_try_to_axis_shape', 'Shape_to_axis_shape_unchecked'],
@@ -101,7 +106,8 @@ def gen_check(src_root=None):
         return dict(ok=False, broken={'*': 'generated text contains a forbidden vernacular'}, n_defs=0, n_lemmas=0, log='')
     equiv = open(os.path.join(C.COQ, 'Gen', 'Equiv.v')).read()
     prelude = open(os.path.join(C.COQ, 'Gen', 'Prelude.v')).read()
-    kernel = open(os.path.join(C.COQ, 'Model', 'Kernel.v')).read() + open(os.path.join(C.COQ, 'Base', 'Machine.v')).read()
+    kernel = (open(os.path.join(C.COQ, 'Model', 'Kernel.v')).read() + open(os.path.join(C.COQ, 'Base', 'Machine.v')).read()
+              + open(os.path.join(C.COQ, 'Model', 'IterMut.v')).read())
     key = hashlib.sha256((gen + '\0' + equiv + '\0' + prelude + '\0' + kernel).encode()).hexdigest()
     cache = os.path.join(GEN_DIR, 'result.json')
     with C.Lock('gen'):
@@ -138,5 +144,8 @@ def gen_check(src_root=None):
         for n in missing:
             broken.setdefault(n, 'no equivalence lemma')
         r = dict(key=key, ok=not broken, broken=broken, n_defs=len(defs), n_lemmas=len(lemmas), log=(log1 + log2)[-1500:])
-        json.dump(r, open(cache, 'w'), indent=1)
+        if r['ok']:          # only successes are cached: a failure is re-examined on every run
+            json.dump(r, open(cache, 'w'), indent=1)
+        elif os.path.exists(cache):
+            os.remove(cache)
         return r
